@@ -287,6 +287,7 @@ def run(rep, drv):
 	heavy_tails(rep)
 	outside_support(rep)
 	shifted_families(rep)
+	call_histories(rep)
 
 
 def heavy_tails(rep):
@@ -365,6 +366,29 @@ def shifted_families(rep):
 					rep.diff('continuous families', '%s x=%r: losses %r, the definitions by quadrature give %r' % (nm, x, got, want), case, py=got, model=want, oracle=True, theorem=THEOREM)
 			except Exception as e:
 				rep.diff('continuous families', '%s x=%r raised %s' % (nm, x, err_enum(e)), case, oracle=True, theorem=THEOREM)
+
+
+def call_histories(rep):
+	"""A loss function is a function of its arguments: evaluated again with one argument changed (and once more unchanged) it gives what the same
+	call gives alone in a fresh interpreter."""
+	from scipy import stats
+	H = core.one_argument_histories
+	calls = []
+	for fn, base, keys in (('normal_loss', dict(x=18, mean=15, sd=3), ['x', 'mean', 'sd']), ('normal_second_loss', dict(x=18, mean=15, sd=3), ['x', 'sd']),
+						   ('lognormal_loss', dict(x=10, mu=2, sigma=0.3), ['x', 'mu', 'sigma']), ('exponential_loss', dict(x=1, mu=0.2), ['x', 'mu']),
+						   ('gamma_loss', dict(x=4, a=2, b=3), ['x', 'a', 'b']), ('uniform_loss', dict(x=4, a=2, b=9), ['x', 'b']),
+						   ('poisson_loss', dict(x=18, mean=15), ['x', 'mean']), ('poisson_second_loss', dict(x=18, mean=15), ['mean']),
+						   ('geometric_loss', dict(x=3, p=0.2), ['x', 'p']), ('negative_binomial_loss', dict(x=14, r=6, p=0.4), ['x', 'r'])):
+		bump = lambda k, v: (v + 2 if k in ('x', 'r') else (min(0.9, v + 0.3) if k == 'p' else v * 1.5 + 1))
+		for kw in H(base, keys, bump):
+			calls.append(('stockpyl.loss_functions', fn, (), kw))
+	for kw in H(dict(x=3, pmf={0: .2, 1: .1, 4: .3, 7: .4}), ['x', 'pmf'], lambda k, v: {0: .4, 1: .1, 4: .3, 7: .2} if k == 'pmf' else v + 2):
+		calls.append(('stockpyl.loss_functions', 'discrete_loss', (), kw)); calls.append(('stockpyl.loss_functions', 'discrete_second_loss', (), kw))
+	for kw in H(dict(x=6.0, distrib=stats.gamma(3, scale=2)), ['x', 'distrib'], lambda k, v: stats.gamma(3, scale=4) if k == 'distrib' else v + 2):
+		calls.append(('stockpyl.loss_functions', 'continuous_loss', (), kw)); calls.append(('stockpyl.loss_functions', 'continuous_second_loss', (), kw))
+	for kw in H(dict(x=4, distrib=stats.binom(10, 0.4)), ['x', 'distrib'], lambda k, v: stats.binom(10, 0.7) if k == 'distrib' else v + 2):
+		calls.append(('stockpyl.loss_functions', 'discrete_loss', (), kw))
+	core.history_check(rep, 'call-history', calls, theorem=THEOREM)
 
 
 def replay(rep, drv, doc):
